@@ -170,7 +170,7 @@ def norm_val(v):
 
 
 def run(ctx):
-    ctx.prove(["Props/C14.vo", "Run/eval_C14.vo"])
+    ctx.prove(["Props/C14.vo", "Run/eval_C14.vo"], extra_props=["Compose_C14_C01"])   # + composition C14 => C01 (engine keys = (function, arguments))
     import extractlib; extractlib.tables_tie(ctx, ['mg.argTypes'])   # literal data of the source re-proved equal to the models' (DESIGN 3.5)
     ctx.trusted_base += ["harness/unitrun (Go, reflection-free pool of functions generated by gen.py)",
                          "checks/c14.py (generator, Coq term printer, oracle)", "Go's reflect package behaves as Model/FnCheck.v's view of function types"]
